@@ -419,6 +419,17 @@ def install(I, G, hooks=None):
         if isinstance(a, int) and isinstance(b, int):
             return int(a == b)
         return a == b
+    def h_hash_reduce(I_, name, args, site):
+        """Fr::hash_reduce (C10): clear bit 255, subtract r once if the rest is >= r (r has 255 bits, so the result is below r); returns the cleared bit"""
+        a = scalar_int(M.read(args[0], "SC"), "Fr::hash_reduce")
+        if isinstance(a, int):
+            t = a % (1 << 255)
+            M.write(args[0], "SC", SV(Poly.const(t - R_ORDER if t >= R_ORDER else t)))
+            return int(a >= (1 << 255))
+        t = a % (1 << 255)
+        M.write(args[0], "SC", SV(Poly.const(z3.If(t >= R_ORDER, t - R_ORDER, t))))
+        return a >= (1 << 255)
+    I.add_intercept(B + r"Fr::hash_reduce\(\)", h_hash_reduce, "Fr::hash_reduce")
     I.add_intercept(BI256 + r"::subtract" + ANY, h_sub, "BigInt<256>::subtract")
     I.add_intercept(BI256 + r"::add" + ANY, h_addi, "BigInt<256>::add")
     I.add_intercept(BI256 + r"::equal" + ANY, h_eq, "BigInt<256>::equal")
